@@ -9,9 +9,14 @@ A. Every `snap` line and every callback observation (`a:/r:/s:` masks):
                      set while r is inactive
      query-resumable more than one sub-state of a composite region is resumable, or the root is resumable
                      (a sub-state may be active and resumable at once: `schedule` of the active one)
-B. `resume` outcome: an operation whose only round evaluated the single request `resume(d)`, was approved and
-   committed: activeSubState(d) afterwards is the sub-state that was resumable before (else 0):
+B. `resume` outcome: an operation that processed the single request `resume(d)` of a composite region
+   (one approved guard round with that request alone, or an immediate resume on an empty queue that ran no
+   guard at all) and in which no callback requested anything: activeSubState(d) afterwards is the sub-state
+   that was resumable before (else 0):
      resume-outcome
+     resume-ignored   KNOWN FINDING S8: d has no composite ancestor (it sits directly below an orthogonal root,
+                      or below orthogonal regions only): requestImmediate finds no composite fork to mark and the
+                      request is silently dropped — no guard, no callback, nothing changes (same for every kind)
 C. Pending queries inside guards, for operations with exactly one guard round, a single pending request, no
    earlier approved round (`currentTransitions` empty), no cancellation: the `/p:e.x.c` masks of every guard
    callback are compared with the enter / exit callbacks that follow in the same operation.  The library
@@ -137,6 +142,7 @@ def judge(hdr, ops, tree, config, rejections, stats):
     import oracles as O
     rej = rejections.setdefault(PID, [])
     last = {}          # inst -> last snap
+    prev_queue = {}
 
     for idx, op in enumerate(ops):
         def reject(tag, what, idx=idx):
@@ -166,27 +172,41 @@ def judge(hdr, ops, tree, config, rejections, stats):
             pend = O.parse_list(rounds[0][0][0])
             curr = O.parse_list(rounds[0][0][1])
             single = len(pend) == 1 and len(curr) == 0
+        # B. resume outcome: a lone resume(d) of a composite region, processed in this operation
+        lone = None
+        if single:
+            o, kind, dest, _ = pend[0]
+            if kind == 'M':
+                lone = dest
+        elif not guards and op.name == 'imm' and op.args and op.args[0] == 'M' and prev_queue.get(op.inst) == '[]':
+            lone = int(op.args[1])          # no guard ran: nothing changed (or the request was dropped)
+        if lone is not None and tree[lone].kind == 'C' and op.snap is not None and op.inst in last \
+                and not any(e[0] == 'cb' and any(a.startswith('Q') for a in e[7].split(';')) for e in op.events):
+            before = last[op.inst]
+            rmask = int(before['R'], 16)
+            want = 0
+            for j, c in enumerate(tree[lone].subs):
+                if rmask >> c & 1:
+                    want = j
+            got = O.parse_subs(op.snap['S'])[lone]
+            stats.inc('checks_' + PID)
+            stats.inc('c13_resume_outcomes')
+            if got != want:
+                if nearest_compo(tree, lone) is None and lone != 0 and not guards:
+                    tag = 'resume-ignored'
+                    what = ('resume(%d) of a region without composite ancestor was dropped: sub-state %d was resumable, '
+                            'activeSubState(%d) stays %r and no callback ran' % (lone, want, lone, got))
+                else:
+                    tag = 'resume-outcome'
+                    what = ('resume(%d): sub-state %d was resumable before, activeSubState(%d) is %r afterwards'
+                            % (lone, want, lone, got))
+                reject(tag, what)
         if guards:
             stats.inc('c13_ops_with_guards')
         if single:
             stats.inc('c13_single_rounds')
             entered = set(int(e[1]) for e in op.events if e[0] == 'cb' and e[2] == 'enter')
             exited = set(int(e[1]) for e in op.events if e[0] == 'cb' and e[2] == 'exit')
-            # B. resume outcome
-            o, kind, dest, _ = pend[0]
-            if kind == 'M' and tree[dest].kind == 'C' and op.snap is not None and op.inst in last and (entered or exited or True):
-                before = last[op.inst]
-                rmask = int(before['R'], 16)
-                want = 0
-                for j, c in enumerate(tree[dest].subs):
-                    if rmask >> c & 1:
-                        want = j
-                got = O.parse_subs(op.snap['S'])[dest]
-                stats.inc('checks_' + PID)
-                stats.inc('c13_resume_outcomes')
-                if got != want:
-                    reject('resume-outcome', 'resume(%d): sub-state %d was resumable before, activeSubState(%d) is %r afterwards'
-                           % (dest, want, dest, got))
             # C. pending masks of every guard callback of the round
             sub_after = O.parse_subs(op.snap['S']) if op.snap is not None else None
             for e in rounds[0][1]:
@@ -220,6 +240,7 @@ def judge(hdr, ops, tree, config, rejections, stats):
                 break          # the registry does not change during a round: one guard callback is enough
         if op.snap is not None:
             last[op.inst] = op.snap
+            prev_queue[op.inst] = op.snap.get('Q')
 
 
 def main(argv):
